@@ -8,8 +8,8 @@ CFG = dict(
                "RemoveUninteresting = Prune with ^(..)$-anchored expressions, identity without drop_frames, error leaves the profile "
                "alone; simplifyFunc only cuts a suffix; refuted twins for F14, F15 with concrete witnesses.",
     level_note="Regexp engine abstract (match table shipped per case); simplifyFunc's fixed bracket expression modelled exactly and "
-               "compared on 400+ names per run; addLegacyFrameInfo (built-in expressions of legacy profiles) and the call sites in "
-               "fetch.go are not modelled.",
+               "compared on 400+ names per run; the call site in fetch.go (fetchProfiles applies RemoveUninteresting exactly once, whatever the "
+               "mappings' HasFunctions flags) is covered by the `fetch` op on the real fetchProfiles; addLegacyFrameInfo is not modelled.",
     rule="inputs = (op, profile, expressions, match table over simplified names): simplifyFunc on a pool + random concatenations of "
          "'(', 'operator()', '(anonymous namespace)' pieces; Prune with drop/keep pairs, PruneFrom, RemoveUninteresting (incl. invalid "
          "expressions, keep without drop) on small stack profiles with inlined locations (1-3 lines), locations shared between "
@@ -17,8 +17,8 @@ CFG = dict(
          "the input term; non-trivial = the operation changed samples or locations",
     spec_what="frames removed by Prune / PruneFrom / RemoveUninteresting differ from the C11 statement (frame rules of S_Prune.v)",
     trusted_base=["Go regexp engine (its answers are shipped as a match table in every case)",
-                  "export shim profile/zz_verif_c11.go (exposes simplifyFunc)"],
+                  "export shims profile/zz_verif_c11.go (exposes simplifyFunc), internal/driver/zz_verif_c11.go (runs fetchProfiles on one in-memory source, no-op symbolizer, ObjTool that finds nothing)"],
     assumptions=["profiles are valid in the sense of wf_profile (a fragment of Profile.CheckValid)",
                  "an unsymbolized location counts as one frame that matches nothing",
-                 "legacy_profile.addLegacyFrameInfo and the driver call sites are not modelled"],
+                 "legacy_profile.addLegacyFrameInfo is not modelled; the fetch.go call site is checked with a single source (no merge)"],
 )
